@@ -1,0 +1,15 @@
+// +build verif
+
+package massdb_v1
+
+// VerifCacheSize is verification hook H1: when set (simulation builds only), it decides the
+// size in bytes of the plotting cache for the next window, so that plots of tiny bit lengths
+// run through several memory windows. Unset, the hook is inert.
+var VerifCacheSize func(requiredMem uint64) (uint64, bool)
+
+func verifCacheSize(requiredMem uint64) (uint64, bool) {
+	if VerifCacheSize == nil {
+		return 0, false
+	}
+	return VerifCacheSize(requiredMem)
+}
